@@ -407,12 +407,15 @@ fn gen_case(r: &mut Rng) -> Case {
         }
         _ => (0..n).map(|_| r.range(0, 9)).collect(),
     };
-    let mi = match r.below(8) {
-        0 | 1 | 2 => None,
-        3 => Some(0.0),
-        4 => Some(0.05),
-        5 => Some(0.25),
-        6 => Some(*r.pick(&[0.5, 1.0, 3.0])),
+    let mi = match r.below(12) {
+        0 | 1 => None,
+        2 => Some(0.0),
+        3 => Some(0.05),
+        4 => Some(0.25),
+        5 => Some(0.5),
+        6 | 7 => Some(1.0),
+        8 | 9 => Some(3.0),
+        10 => Some(8.0),
         _ => Some(r.below(1000) as f64 / 500.0),
     };
     let threads = match r.below(10) {
